@@ -7,6 +7,7 @@ From Coq Require Import ZArith List Bool.
 From RP Require Sched.Model Sched.NodeMap Sched.Inv Sched.SchedProofs Sched.RunProofs
                Sched.LiveProofs Sched.CancelProofs Sched.ConsProofs Sched.CancelRunProofs.
 From RP Require Exec.Model Exec.Oracle Exec.Local Exec.Proj Exec.Proofs Exec.CancelProofs Exec.ExamProofs Exec.PollProofs Exec.HandlerProofs Exec.KillProofs.
+From RP Require CancelReq.Model CancelReq.Proofs.
 From RP Require Relay.Model Relay.Oracle Relay.Proofs Relay.History Relay.Frame Relay.OracleProofs.
 Import ListNotations.
 
@@ -420,3 +421,34 @@ Example C08_relay_nonvacuous :
   = (mkS [] [(1, 1)] [] [2; 3; 9] [], [OCancel [2; 3]; OCancel1 4; OPut 1 [1]; OPut 1 []]).
 Proof. vm_compute. reflexivity. Qed.
 End RelaySide.
+
+(* ---- where a request starts: the client.  TaskManager.cancel_tasks(uids) with
+   nothing (all tasks of the manager), one uid (Task.cancel()) or a list; the
+   message carries a LIST of uids, which every component registers. *)
+Module ClientSide.
+Import RP.CancelReq.Model RP.CancelReq.Proofs.
+
+(* the request names exactly the tasks the application named *)
+Theorem C08_client_request_names_exactly :
+  forall (all : list Z) (a : carg) (u : Z), In u (request_uids all a) <-> named all a u.
+Proof. exact request_names_exactly. Qed.
+Print Assumptions C08_client_request_names_exactly.
+
+(* a component that receives it registers exactly those, and keeps what it had *)
+Theorem C08_client_registered_exactly :
+  forall (cl all : list Z) (a : carg) (u : Z),
+    In u (register cl (request_uids all a)) <-> In u cl \/ named all a u.
+Proof. exact registered_exactly. Qed.
+Print Assumptions C08_client_registered_exactly.
+
+Theorem C08_client_register_keeps :
+  forall cl uids : list Z, firstn (length cl) (register cl uids) = cl.
+Proof. exact register_keeps. Qed.
+Print Assumptions C08_client_register_keeps.
+
+Example C08_client_nonvacuous :
+  request_uids [1; 2; 3] ANone = [1; 2; 3] /\ request_uids [1; 2; 3] (AOne 2) = [2]
+  /\ request_uids [1; 2; 3] (AMany [3; 9]) = [3; 9] /\ request_uids [1; 2] (AMany []) = [1; 2].
+Proof. vm_compute. auto. Qed.
+End ClientSide.
+
